@@ -254,6 +254,20 @@ func sampleDocs() map[string][][]byte {
 			o[ext] = append(o[ext], b)
 		}
 	}
+	// SSA documents of about 3 kB and 9 kB: long enough for the scanner to shift and refill its buffer while values
+	// of the first lines are still held
+	for _, n := range []int{24, 80} {
+		var b bytes.Buffer
+		b.WriteString("[Script Info]\n; a comment kept until the end\nTitle: A title that is kept until the end of the parse\nScriptType: v4.00+\nPlayResX: 384\n\n[V4+ Styles]\nFormat: Name, Fontname, Fontsize, PrimaryColour, Bold\n")
+		for i := 0; i < 6; i++ {
+			fmt.Fprintf(&b, "Style: Speaker %d,Arial Font %d,%d,&H00FFFF%02X,-1\n", i, i, 16+i, i)
+		}
+		b.WriteString("\n[Events]\nFormat: Layer, Start, End, Style, Name, MarginL, MarginR, MarginV, Effect, Text\n")
+		for i := 0; i < n; i++ {
+			fmt.Fprintf(&b, "Dialogue: 0,0:00:%02d.00,0:00:%02d.50,Speaker %d,Name %d,0,0,0,,This is the text of dialogue line number %d, with a comma\n", i%60, i%60, i%6, i, i)
+		}
+		o["ssa"] = append(o["ssa"], b.Bytes())
+	}
 	// transport streams carrying teletext: built by the harness (the repository has no sample)
 	if ttSample != nil {
 		for seed := uint64(0); seed < 3; seed++ {
@@ -453,6 +467,18 @@ func init() {
 		k := int(atoi64(a[2]))
 		rd := &schedReader{orig: doc, data: append([]byte(nil), doc...), sizes: decInts(a[4]), end: a[3], limit: k}
 		_, err := readWith(a[0], rd)
+		if a[0] == "ts" && err != nil && k >= 0 {
+			// the same with the PID given (no look-up pass, no rewind), through readers with and without Seek
+			for _, pid := range tsPIDs(doc) {
+				o := astisub.TeletextOptions{PID: pid}
+				if _, e := readTS(&schedReader{orig: doc, data: append([]byte(nil), doc...), sizes: decInts(a[4]), end: a[3], limit: k}, o); e == nil {
+					return fmt.Sprintf("ok-with-pid-%d", pid)
+				}
+				if _, e := readTS(onlyReader{&schedReader{data: append([]byte(nil), doc...), sizes: decInts(a[4]), end: a[3], limit: k}}, o); e == nil {
+					return fmt.Sprintf("ok-with-pid-%d-noseek", pid)
+				}
+			}
+		}
 		return errClass(err)
 	}, gen: func(c *ctx) {
 		r := newRng(c.seed, "io.fault")
@@ -501,8 +527,19 @@ func init() {
 	}}
 
 	// io.wfault: the destination accepts k bytes and then fails
+	// half of the lists carry styles and regions (several Style: lines, STYLE blocks, <style> elements: more writes)
+	wfSubs := func(seed uint64, f string) *astisub.Subtitles {
+		if seed%2 == 1 {
+			s := genStyledSubs(newRng(seed, "styled"))
+			if s.Metadata == nil {
+				s.Metadata = &astisub.Metadata{Title: "t"}
+			}
+			return s
+		}
+		return genSubs(newRng(seed, "subs"), f)
+	}
 	streams["io.wfault"] = stream{exec: func(a []string) string {
-		s := genSubs(newRng(uint64(atoi64(a[1])), "subs"), a[0])
+		s := wfSubs(uint64(atoi64(a[1])), a[0])
 		k := int(atoi64(a[2]))
 		w := &faultWriter{cap: k}
 		err := writeRaw(a[0], s, w)
@@ -526,7 +563,7 @@ func init() {
 		for _, f := range []string{"srt", "vtt", "ssa", "stl", "ttml"} {
 			for i := 0; i < n; i++ {
 				seed := r.intn(1 << 30)
-				s := genSubs(newRng(uint64(seed), "subs"), f)
+				s := wfSubs(uint64(seed), f)
 				var full bytes.Buffer
 				if err := writeWith(f, s, &full); err != nil {
 					continue
